@@ -206,4 +206,342 @@ theorem place_pairwise (k s : Rat) (st : Bool) (c : String → Rat) (l : List (R
       (fun a ha b hb => h a (hperm.mem_iff.1 ha) b (hperm.mem_iff.1 hb))
 
 
+/-! ### graphs of one element  ↔  its spec item -/
+
+theorem reach_zero_antisymm (f : Bool) (d : Rat) (h1 : Reach f d 0) (h2 : Reach f (-d) 0) : d = 0 := by
+  unfold Reach at *
+  cases f <;> simp at * <;> linarith
+
+/-- one axis: the pairwise meaning over (value, node) pairs is the spec's `PairOk` over offsets `value·s·k` -/
+theorem axis_iff (k s : Rat) (hs : 0 < s) (hk : 0 < k) (st : Bool) (c : String → Rat) (pins : List (String × Rat)) :
+    (∀ a ∈ pins.map (fun p => (p.2, p.1)), ∀ b ∈ pins.map (fun p => (p.2, p.1)), b.1 ≤ a.1 → G k s st c a b)
+      ↔ ∀ p ∈ pins, ∀ q ∈ pins, PairOk st (c p.1) (p.2 * s * k) (c q.1) (q.2 * s * k) := by
+  have hsk : 0 < s * k := mul_pos hs hk
+  have hle : ∀ u v : Rat, u * s * k ≤ v * s * k ↔ u ≤ v := by
+    intro u v
+    rw [mul_assoc, mul_assoc]
+    exact mul_le_mul_iff_of_pos_right hsk
+  simp only [List.forall_mem_map]
+  constructor
+  · intro h p hp q hq hpq
+    have hv : p.2 ≤ q.2 := (hle _ _).1 hpq
+    have g := h q hq p hp hv
+    rcases eq_or_lt_of_le hv with e | l
+    · have := g.1 e.symm
+      simp only at this
+      rw [this, e]
+      unfold Reach; cases st <;> simp
+    · have := g.2 l
+      simp only at this
+      have e : q.2 * s * k - p.2 * s * k = (q.2 - p.2) * s * k := by ring
+      rw [e]; exact this
+  · intro h a ha b hb hba
+    have h1 := h b hb a ha ((hle _ _).2 hba)
+    constructor
+    · intro e
+      simp only at e
+      have h2 := h a ha b hb ((hle _ _).2 (le_of_eq e))
+      have z1 : a.2 * s * k - b.2 * s * k = 0 := by rw [e]; ring
+      have z2 : b.2 * s * k - a.2 * s * k = 0 := by rw [e]; ring
+      rw [z1] at h1; rw [z2] at h2
+      have : c b.1 - c a.1 = -(c a.1 - c b.1) := by ring
+      rw [this] at h2
+      have := reach_zero_antisymm _ _ h1 h2
+      simp only
+      linarith
+    · intro l
+      simp only
+      have e : a.2 * s * k - b.2 * s * k = (a.2 - b.2) * s * k := by ring
+      rw [← e]; exact h1
+
+
+theorem graphs_sat_iff (k : Rat) (L : Layout) (r : Resolved) (hskip : r.skip = false) (hs : 0 ≤ r.size) :
+    r.graphs.Sat k L ↔
+      (∀ a ∈ r.xs, ∀ b ∈ r.xs, b.1 ≤ a.1 → G k r.size r.stretch L.x a b) ∧
+      (∀ a ∈ r.ys, ∀ b ∈ r.ys, b.1 ≤ a.1 → G k r.size r.stretch L.y a b) := by
+  rw [← place_pairwise k r.size r.stretch L.x r.xs hs, ← place_pairwise k r.size r.stretch L.y r.ys hs]
+  unfold Graphs.Sat Resolved.graphs
+  simp only [hskip, Bool.false_eq_true, if_false]
+  tauto
+
+theorem graphs_iff_body (k : Rat) (L : Layout) (r : Resolved) (hskip : r.skip = false) (hs : 0 < r.size) (hk : 0 < k) :
+    r.graphs.Sat k L ↔ (r.body k).Sat L := by
+  rw [graphs_sat_iff k L r hskip (le_of_lt hs)]
+  have hx := axis_iff k r.size hs hk r.stretch L.x (r.pins.map (fun p => (p.1, p.2.1)))
+  have hy := axis_iff k r.size hs hk r.stretch L.y (r.pins.map (fun p => (p.1, p.2.2)))
+  simp only [List.map_map] at hx hy
+  have ex : r.xs = List.map ((fun p : String × Rat => (p.2, p.1)) ∘ fun p : String × Rat × Rat => (p.1, p.2.1)) r.pins := by
+    unfold Resolved.xs; apply List.map_congr_left; intro p _; rfl
+  have ey : r.ys = List.map ((fun p : String × Rat => (p.2, p.1)) ∘ fun p : String × Rat × Rat => (p.1, p.2.2)) r.pins := by
+    unfold Resolved.ys; apply List.map_congr_left; intro p _; rfl
+  rw [ex, ey, hx, hy]
+  unfold Body.Sat Resolved.body
+  simp only [List.forall_mem_map]
+  constructor
+  · rintro ⟨h1, h2⟩ p hp q hq
+    exact ⟨h1 p hp q hq, h2 p hp q hq⟩
+  · intro h
+    exact ⟨fun p hp q hq => (h p hp q hq).1, fun p hp q hq => (h p hp q hq).2⟩
+
+
+theorem two_pin_axis (k s : Rat) (st : Bool) (c : String → Rat) (a b : String) (va vb : Rat) :
+    (∀ p ∈ [(va, a), (vb, b)], ∀ q ∈ [(va, a), (vb, b)], q.1 ≤ p.1 → G k s st c p q) ↔
+      ((va = vb → c a = c b) ∧ (va < vb → Reach (!st) (c b - c a) ((vb - va) * s * k))
+        ∧ (vb < va → Reach (!st) (c a - c b) ((va - vb) * s * k))) := by
+  simp only [List.mem_cons, List.mem_nil_iff, or_false, forall_eq_or_imp, forall_eq, G]
+  constructor
+  · rintro ⟨⟨-, h1⟩, h2, -⟩
+    refine ⟨fun e => ?_, fun l => (h2 (le_of_lt l)).2 l, fun l => (h1 (le_of_lt l)).2 l⟩
+    exact (h1 (le_of_eq e.symm)).1 e
+  · rintro ⟨he, h1, h2⟩
+    refine ⟨⟨fun _ => ⟨fun _ => trivial, fun l => absurd l (lt_irrefl _)⟩, fun _ => ⟨he, h2⟩⟩,
+            fun _ => ⟨fun e => (he e.symm).symm, h1⟩, fun _ => ⟨fun _ => trivial, fun l => absurd l (lt_irrefl _)⟩⟩
+
+theorem graphs_iff_hint (k : Rat) (L : Layout) (r : Resolved) (hskip : r.skip = false) (hs : 0 ≤ r.size)
+    (h : Hint) (hi : r.item k = some (.hint h)) : r.graphs.Sat k L ↔ h.Sat L := by
+  rw [graphs_sat_iff k L r hskip hs]
+  unfold Resolved.item at hi
+  simp only [hskip, Bool.false_eq_true, if_false] at hi
+  split at hi
+  · rename_i a ta b tb hp
+    have ex : r.xs = [(ta.1, a), (tb.1, b)] := by unfold Resolved.xs; rw [hp]; rfl
+    have ey : r.ys = [(ta.2, a), (tb.2, b)] := by unfold Resolved.ys; rw [hp]; rfl
+    rw [ex, ey, two_pin_axis, two_pin_axis]
+    split_ifs at hi with c1 c2 c3 c4
+    · obtain ⟨e, l⟩ := c1
+      injection hi with hi; injection hi with hi; subst hi
+      unfold Hint.Sat; simp only
+      have n1 : ¬ ta.1 = tb.1 := ne_of_lt l
+      have n2 : ¬ tb.1 < ta.1 := not_lt.2 (le_of_lt l)
+      simp only [e, l, n1, n2, forall_const, false_imp_iff, true_and, and_true, lt_irrefl]
+      constructor
+      · rintro ⟨h1, h2⟩; exact ⟨h2.symm, h1⟩
+      · rintro ⟨h1, h2⟩; exact ⟨h2, h1.symm⟩
+    · obtain ⟨e, l⟩ := c2
+      injection hi with hi; injection hi with hi; subst hi
+      unfold Hint.Sat; simp only
+      have n1 : ¬ ta.1 = tb.1 := fun h => (ne_of_lt l) h.symm
+      have n2 : ¬ ta.1 < tb.1 := not_lt.2 (le_of_lt l)
+      simp only [e, l, n1, n2, forall_const, false_imp_iff, true_and, and_true, lt_irrefl]
+      constructor
+      · rintro ⟨h1, h2⟩; exact ⟨h2.symm, h1⟩
+      · rintro ⟨h1, h2⟩; exact ⟨h2, h1.symm⟩
+    · obtain ⟨e, l⟩ := c3
+      injection hi with hi; injection hi with hi; subst hi
+      unfold Hint.Sat; simp only
+      have n1 : ¬ ta.2 = tb.2 := ne_of_lt l
+      have n2 : ¬ tb.2 < ta.2 := not_lt.2 (le_of_lt l)
+      simp only [e, l, n1, n2, forall_const, false_imp_iff, true_and, and_true, lt_irrefl]
+      constructor
+      · rintro ⟨h1, h2⟩; exact ⟨h1.symm, h2⟩
+      · rintro ⟨h1, h2⟩; exact ⟨h1.symm, h2⟩
+    · obtain ⟨e, l⟩ := c4
+      injection hi with hi; injection hi with hi; subst hi
+      unfold Hint.Sat; simp only
+      have n1 : ¬ ta.2 = tb.2 := fun h => (ne_of_lt l) h.symm
+      have n2 : ¬ ta.2 < tb.2 := not_lt.2 (le_of_lt l)
+      simp only [e, l, n1, n2, forall_const, false_imp_iff, true_and, and_true, lt_irrefl]
+      constructor
+      · rintro ⟨h1, h2⟩; exact ⟨h1.symm, h2⟩
+      · rintro ⟨h1, h2⟩; exact ⟨h1.symm, h2⟩
+    · injection hi with hi; cases hi
+  · injection hi with hi; cases hi
+
+
+/-! ### longest-path placement -/
+
+theorem revTopoB_iff (edges : List WEdge) : ∀ l, revTopoB edges l = true ↔ RevTopo edges l
+  | [] => by simp [revTopoB, RevTopo]
+  | v :: earlier => by
+    have ih := revTopoB_iff edges earlier
+    simp only [revTopoB, RevTopo, Bool.and_eq_true, List.all_eq_true, ih]
+    constructor
+    · rintro ⟨h1, h2⟩
+      refine ⟨fun e he hs => ?_, h2⟩
+      have := h1 e he
+      simpa [hs] using this
+    · rintro ⟨h1, h2⟩
+      refine ⟨fun e he => ?_, h2⟩
+      by_cases hs : e.src = v
+      · have := h1 e he hs
+        simpa [hs] using this
+      · simp [hs]
+
+theorem foldl_max_ge (edges : List WEdge) (d : String → Rat) (v : String) :
+    ∀ (acc : Rat), acc ≤ edges.foldl (fun acc e => if e.dst = v then max acc (d e.src + e.size) else acc) acc := by
+  induction edges with
+  | nil => intro acc; exact le_refl _
+  | cons e rest ih =>
+    intro acc
+    simp only [List.foldl_cons]
+    split
+    · exact le_trans (le_max_left _ _) (ih _)
+    · exact ih _
+
+theorem inMax_ge_edge (edges : List WEdge) (d : String → Rat) (v : String) (e : WEdge) (he : e ∈ edges) (hv : e.dst = v) :
+    d e.src + e.size ≤ inMax edges d v := by
+  unfold inMax
+  suffices ∀ acc, d e.src + e.size ≤ edges.foldl (fun acc e => if e.dst = v then max acc (d e.src + e.size) else acc) acc from this 0
+  induction edges with
+  | nil => cases he
+  | cons e' rest ih =>
+    intro acc
+    simp only [List.foldl_cons]
+    rcases List.mem_cons.1 he with rfl | hr
+    · simp only [hv, if_true]
+      exact le_trans (le_max_right _ _) (foldl_max_ge rest d v _)
+    · exact ih hr _
+
+theorem inMax_nonneg (edges : List WEdge) (d : String → Rat) (v : String) : 0 ≤ inMax edges d v :=
+  foldl_max_ge edges d v 0
+
+theorem lp_nonneg (edges : List WEdge) : ∀ (l : List String) (u : String), 0 ≤ lp edges l u
+  | [], _ => le_refl _
+  | v :: earlier, u => by
+    unfold lp
+    split
+    · exact inMax_nonneg _ _ _
+    · exact lp_nonneg edges earlier u
+
+/-- **Longest-path placement is feasible**: on any DAG given with a (reverse) topological order, any size,
+    the longest-path distances satisfy every ≥-constraint whose endpoints are in the order. -/
+theorem lp_feasible (edges : List WEdge) :
+    ∀ (l : List String), l.Nodup → RevTopo edges l →
+      ∀ e ∈ edges, e.src ∈ l → e.dst ∈ l → e.size ≤ lp edges l e.dst - lp edges l e.src
+  | [], _, _ => by intro e _ h; cases h
+  | v :: earlier, hnd, ht => by
+    have ih := lp_feasible edges earlier (List.nodup_cons.1 hnd).2 ht.2
+    have hv : v ∉ earlier := (List.nodup_cons.1 hnd).1
+    intro e he hs hd
+    have hsrc : e.src ≠ v := fun h => ht.1 e he h hd
+    have hs' : e.src ∈ earlier := by
+      rcases List.mem_cons.1 hs with h | h
+      · exact absurd h hsrc
+      · exact h
+    unfold lp
+    simp only [hsrc, if_false]
+    by_cases hdv : e.dst = v
+    · simp only [hdv, if_true]
+      have := inMax_ge_edge edges (lp edges earlier) v e he hdv
+      linarith
+    · simp only [hdv, if_false]
+      have hd' : e.dst ∈ earlier := by
+        rcases List.mem_cons.1 hd with h | h
+        · exact absurd h hdv
+        · exact h
+      exact ih e he hs' hd'
+
+theorem inMax_single (edges : List WEdge) (d : String → Rat) (e : WEdge) (he : e ∈ edges)
+    (huniq : ∀ e' ∈ edges, e'.dst = e.dst → e' = e) (hpos : 0 ≤ d e.src + e.size) :
+    inMax edges d e.dst = d e.src + e.size := by
+  apply le_antisymm _ (inMax_ge_edge edges d e.dst e he rfl)
+  unfold inMax
+  suffices ∀ acc, acc ≤ d e.src + e.size →
+      edges.foldl (fun acc e' => if e'.dst = e.dst then max acc (d e'.src + e'.size) else acc) acc ≤ d e.src + e.size from this 0 hpos
+  clear he
+  induction edges with
+  | nil => intro acc h; exact h
+  | cons e' rest ih =>
+    intro acc h
+    simp only [List.foldl_cons]
+    have ih' := ih (fun x hx => huniq x (List.mem_cons_of_mem _ hx))
+    split
+    · rename_i hd
+      have : e' = e := huniq e' (by simp) hd
+      subst this
+      exact ih' _ (max_le h (le_refl _))
+    · exact ih' _ h
+
+/-- partial: a fixed-length edge is drawn with exactly its length by the longest-path placement when it is the
+    only edge into its head (no competing constraint on that node). -/
+theorem lp_exact_of_unique (edges : List WEdge) :
+    ∀ (l : List String), l.Nodup → RevTopo edges l →
+      ∀ e ∈ edges, e.src ∈ l → e.dst ∈ l → 0 ≤ e.size → (∀ e' ∈ edges, e'.dst = e.dst → e' = e) →
+        lp edges l e.dst - lp edges l e.src = e.size
+  | [], _, _ => by intro e _ h; cases h
+  | v :: earlier, hnd, ht => by
+    have ih := lp_exact_of_unique edges earlier (List.nodup_cons.1 hnd).2 ht.2
+    intro e he hs hd hsz hu
+    have hsrc : e.src ≠ v := fun h => ht.1 e he h hd
+    have hs' : e.src ∈ earlier := by
+      rcases List.mem_cons.1 hs with h | h
+      · exact absurd h hsrc
+      · exact h
+    unfold lp
+    simp only [hsrc, if_false]
+    by_cases hdv : e.dst = v
+    · simp only [hdv, if_true]
+      have h0 : 0 ≤ lp edges earlier e.src + e.size := add_nonneg (lp_nonneg edges earlier e.src) hsz
+      have := inMax_single edges (lp edges earlier) e he hu h0
+      rw [hdv] at this
+      linarith
+    · simp only [hdv, if_false]
+      have hd' : e.dst ∈ earlier := by
+        rcases List.mem_cons.1 hd with h | h
+        · exact absurd h hdv
+        · exact h
+      exact ih e he hs' hd' hsz hu
+
+
+/-! ### whole netlist -/
+
+theorem append_sat (k : Rat) (L : Layout) (a b : Graphs) : (a.append b).Sat k L ↔ a.Sat k L ∧ b.Sat k L := by
+  unfold Graphs.Sat Graphs.append
+  simp only [List.mem_append, or_imp, forall_and]
+  tauto
+
+theorem makeGraphs_sat (k : Rat) (L : Layout) : ∀ rs : List Resolved, (makeGraphs rs).Sat k L ↔ ∀ r ∈ rs, r.graphs.Sat k L
+  | [] => by simp [makeGraphs, Graphs.Sat]
+  | r :: rest => by
+    have ih := makeGraphs_sat k L rest
+    unfold makeGraphs at ih ⊢
+    simp only [List.foldr_cons, append_sat, ih, List.forall_mem_cons]
+
+theorem item_cases (k : Rat) (r : Resolved) (hskip : r.skip = false) :
+    (∃ h, r.item k = some (.hint h)) ∨ r.item k = some (.body (r.body k)) := by
+  unfold Resolved.item
+  simp only [hskip, Bool.false_eq_true, if_false]
+  split
+  · split_ifs <;> simp
+  · simp
+
+theorem skip_graphs_sat (k : Rat) (L : Layout) (r : Resolved) (hskip : r.skip = true) : r.graphs.Sat k L := by
+  unfold Resolved.graphs Graphs.Sat
+  simp [hskip]
+
+theorem elt_match (k : Rat) (L : Layout) (r : Resolved) (hk : 0 < k) (hskip : r.skip = false)
+    (hsz : r.sizeOk k = true) (it : Item) (hi : r.item k = some it) : r.graphs.Sat k L ↔ it.Sat L := by
+  unfold Resolved.sizeOk at hsz
+  simp only [hskip, Bool.false_or] at hsz
+  rcases item_cases k r hskip with ⟨h, hh⟩ | hb
+  · rw [hh] at hi hsz
+    injection hi with hi; subst hi
+    simp only [decide_eq_true_eq] at hsz
+    exact graphs_iff_hint k L r hskip hsz h hh
+  · rw [hb] at hi hsz
+    injection hi with hi; subst hi
+    simp only [decide_eq_true_eq] at hsz
+    exact graphs_iff_body k L r hskip hsz hk
+
+theorem all_match (k : Rat) (L : Layout) (hk : 0 < k) : ∀ (rs : List Resolved), (∀ r ∈ rs, r.sizeOk k = true) →
+    ((makeGraphs rs).Sat k L ↔ ∀ it ∈ rs.filterMap (Resolved.item k), it.Sat L) := by
+  intro rs hsz
+  rw [makeGraphs_sat]
+  simp only [List.mem_filterMap]
+  constructor
+  · rintro h it ⟨r, hr, hi⟩
+    have hskip : r.skip = false := by
+      by_contra hc
+      have : r.skip = true := by simpa using hc
+      unfold Resolved.item at hi; simp [this] at hi
+    exact (elt_match k L r hk hskip (hsz r hr) it hi).1 (h r hr)
+  · intro h r hr
+    by_cases hskip : r.skip = true
+    · exact skip_graphs_sat k L r hskip
+    · have hskip' : r.skip = false := by simpa using hskip
+      rcases item_cases k r hskip' with ⟨hh, e⟩ | e
+      · exact (elt_match k L r hk hskip' (hsz r hr) _ e).2 (h _ ⟨r, hr, e⟩)
+      · exact (elt_match k L r hk hskip' (hsz r hr) _ e).2 (h _ ⟨r, hr, e⟩)
+
+
 end Lcapy.Layout
